@@ -270,7 +270,11 @@ pub mod step {
         let n_actions: usize = if empty_cell { 0 } else if kani::any() { 1 } else { 2 };
         let goto_to = St(kani::any());
         let def: &'static SymDef = Box::leak(Box::new(SymDef { n_actions, action, goto_to, lookups: Cell::new(0), asked1: Cell::new(None), asked2: Cell::new(None), asked_goto: Cell::new(None) }));
-        let parser: Prs = LRParser::new(def, St(0), false, false, lexer, Rec { calls: 0, last: Call::None });
+        // partial parsing on or off: with the lexer finding what it finds, it must make no
+        // difference to a step (the synthetic STOP exists only in next_token, when nothing is
+        // found and STOP is expected - SymDef never expects STOP)
+        let partial: bool = kani::any();
+        let parser: Prs = LRParser::new(def, St(0), partial, false, lexer, Rec { calls: 0, last: Call::None });
 
         // ---- the real code: first lookahead, one symbolic iteration, Accept --------------------
         let r = parser.verif_run(INPUT, &mut context, &mut parse_stack);
@@ -334,6 +338,7 @@ pub mod step {
                             assert!(def.asked2.get().map(|a| a.0) == Some(goto_to), "C02 after a reduction the parser is in the GOTO state");
                             assert!(context.span().start.pos == cs_a && context.span().end.pos == cs_b, "C13 the context span of the last token is restored after a reduction");
                             assert!(lay(context.layout_ahead()) == lay(layout0), "C14 the layout before the lookahead survives re-lexing after a reduction");
+                            assert!(context.position().pos == p + skip1, "C02/C13 the position reached by re-lexing after a reduction (layout skipped before the lookahead) is kept: the next shift starts at the lookahead");
                         } else {
                             assert!(r.is_err(), "C12 no lookahead after the reduction is an error");
                         }
